@@ -27,7 +27,7 @@
 # not killable inside the bounds (stated, not hidden): qmtpd `>= 1000` -> `>= 100000` (needs a 1000-byte recipient: C07 template 5),
 # qmtpd drop `len >= biglen` (no memory effect), headerbody nextline.s[1] (stale byte inside the buffer), cdb_seek `++h2 > lenhash` in
 # corrupt mode (no memory effect; killed by C11 cdb_seek_spec).
-from vlib import Obl, Prog
+from vlib import Obl, Prog, borrow
 
 OPS_OUT = {0: "substdio_put", 1: "substdio_bput", 2: "substdio_putflush", 3: "substdio_flush"}
 
@@ -365,4 +365,9 @@ def obligations(tier):
             outside=["outputs longer than the grid"],
             claim="report() never reads outside the child's output block, whatever it contains, and always emits K, Z or D first",
             expect_witnesses=lambda p: ["reported", "exit0_output_without_any_nul"] + (["exit0_last_field_unterminated"] if p["L"] >= 2 else [])))
+    # two guards whose constants lie outside every kernel bound above are decided in their owners' harnesses, with all of cbmc's
+    # memory checks on, and are part of this check too: REPORTMAX truncation of spawner reports (parametric copy, C03/C18) and the
+    # 1000-byte recipient buffer of qmail-qmtpd with a RELAYCLIENT suffix (template with 999/1000-byte recipients, C07)
+    obls += borrow("C03", ["del_dochan_truncation"], tier)
+    obls += borrow("C07", ["qmtpd_long_rcpt"], tier)
     return obls
